@@ -2,7 +2,7 @@
    (Spec/ConfigUnits.v) over the reals; every exported number is within 0.5e-4 of the physical value in the field's unit;
    "auto" fields are the explicit optimum calls on the setup built so far. *)
 From Coq Require Import Reals QArith Qreals Lra Lia ZArith String List Bool.
-From SpdVerif Require Import Base.Rx Base.NumOps Model.NumInst Spec.ConfigSpec Gen.ConfigTables Spec.ConfigUnits
+From SpdVerif Require Import Base.Rx Base.CfgNumOps Model.NumInst Spec.ConfigSpec Gen.ConfigTables Spec.ConfigUnits
   Model.ConfigTypes Model.Config Gen.ConfigConv Proofs.C16_round.
 Import ListNotations.
 Local Open Scope R_scope.
